@@ -233,6 +233,51 @@ def _conc2(kp, pre, a1, b1, a2, bound=None):
         return x if x else rt.ok()
 
 
+SIBS = ['x.part', 'x.tmp', 'x~', '.x', 'x.partial', '.x.swp', 'x.bak', 'x_1', 'x.new', 'x.trashinfo']
+
+
+def _xdev(kind, sib, sibkind):
+    """the entry crosses devices into the home trash (copy + delete) while the trash already holds an entry whose name
+    is the new name plus a suffix a staging / temporary copy would plausibly use: that neighbour is an entry like any
+    other and must come through untouched"""
+    with rt.untraced():
+        rt.begin(('xdev', K.KINDS[kind], SIBS[sib], ['file', 'dir'][sibkind]))
+        td = '/h/.local/share/Trash'
+        nodes = [W.d('/h'), W.d('/v/d'), W.f('/v/keep', 'KEEP', 0o644, 800), W.f('/v/.Trash', 'file', 0o644, 909),
+                 W.f('/v/.Trash-1000', 'file', 0o644, 910)] + K.sentinels('/v/out')
+        nodes += K.trashed(td, SIBS[sib], K.quote('/v/d/' + SIBS[sib]), '2019-01-01T00:00:00', ['file', 'dir'][sibkind], 3000)
+        nodes += K.entry_nodes(kind, '/v/d/x', 1000)
+        e = scen.env()
+        e['TRASH_ENABLE_HOME_FALLBACK'] = '1'
+        m, res = scen.run_model(W.W(mounts=K.MOUNTS, cwd='/v/d', nodes=nodes),
+                                [{'snap': '/'}, C('put', ['--home-fallback', '--', 'x'], e, cwd='/v/d'), {'snap': '/'}])
+        before, r, after = res
+        label = 'cross-device:%s:neighbour=%s' % (K.KINDS[kind], SIBS[sib])
+        if r['exc'] or r['exit'] != 0:
+            return rt.fail('C04:put-failed:' + label, repr(r)[:300])
+        old = scen.trash_entries(before, td)
+        ents = scen.trash_entries(after, td)
+        for n, pair in old.items():
+            if ents.get(n) != pair:
+                return rt.fail('C04:existing-entry-damaged:' + label, '%s/%s: %s' % (td, n, 'gone' if n not in ents else 'changed'))
+        new = [n for n in ents if n not in old]
+        if len(new) != 1 or ents[new[0]][0] is None or ents[new[0]][1] is None:
+            return rt.fail('C04:incomplete-pair-left:' + label, 'new entries %r' % ({n: (ents[n][0] is not None, ents[n][1] is not None) for n in new},))
+        payload = scen.sub(before, '/v/d/x')
+        pl = ents[new[0]][1]
+        if pl != payload and not (payload[0] == 'l' and pl[0] == 'l' and pl[1] == payload[1]):
+            return rt.fail('C04:payload-differs:' + label, repr(W.diff_snaps(payload, pl)[:4]))
+        return rt.ok()
+
+
+def w_xdev(kind: int, sib: int, sibkind: int) -> str:
+    """
+    pre: 0 <= kind < 6 and 0 <= sib < 10 and 0 <= sibkind < 2
+    post: _ == ''
+    """
+    return _xdev(rt.sel(kind, 6), rt.sel(sib, 10), rt.sel(sibkind, 2))
+
+
 def _victim(kp, pre, a1, a2, same):
     """P0 is preempted twice, each time by a COMPLETE run of another trash-put: P0 runs to its a1-th shared
     instant, P1 runs from start to end, P0 makes a2 further system calls, P2 runs from start to end, P0 finishes.
@@ -425,6 +470,8 @@ def obligations(tier):
            bounds='2 concurrent trash-put; P0 runs to its a1-th shared instant (next system call touches the trash directory), P1 to its b1-th, '
                   'then both complete; every pair of shared instants x 5 kind pairs x 2 (quick) / 4 (thorough) trash-dir pre-states'),
     ]
+    obs.append(CH('W_cross_device_put_next_to_suffixed_names', MOD, 'w_xdev', timeout=600, engine='W', regime='selector', encodes=K.PUT_FUNCS, stubs=K.STUBS,
+                  bounds='home fallback across devices x 6 kinds x 10 pre-existing neighbour names (x.part, x.tmp, x~, .x, x.partial, .x.swp, x.bak, x_1, x.new, x.trashinfo) x file / directory'))
     vparts = [(k, p, sm, r) for (k, p) in ([(0, 0), (0, 2)] if tier == 'quick' else [(k, p) for k in (0, 1, 2) for p in range(4)]) for sm in (False, True) for r in range(4)]
     obs.append(CH('W_victim_preempted_twice_by_complete_runs', MOD, 'w_victim', timeout=2400, partitions=vparts, engine='W', regime='selector',
                   encodes=K.PUT_FUNCS + ['vf.sched replay-stepping'], stubs=K.STUBS,
